@@ -53,6 +53,17 @@ pub fn all() -> Vec<Prop> {
     ]
 }
 
+/// Generators of one property that read their words as free choices (not as a packed payload):
+/// what the `prop_choice` fuzz target searches when `CTV_FUZZ_PROP` names the property.
+pub fn fuzz_gens_for(id: &str) -> Vec<Gen> {
+    all()
+        .into_iter()
+        .filter(|p| p.id == id)
+        .flat_map(|p| (p.gens)())
+        .filter(|g| !g.name.ends_with("concrete") && !["c04_short", "c13_name", "c13_icon", "c14_params", "c14_formats", "c16_case"].contains(&g.name))
+        .collect()
+}
+
 /// Generators exposed to the coverage-guided `choice` fuzz target (and to `ctv fuzz-artifact`,
 /// which turns a libFuzzer artifact of that target back into an ordinary replay file).
 pub fn fuzz_gens() -> Vec<Gen> {
